@@ -51,8 +51,8 @@ def strategy(date, ctx):
         who = int(draw(st.sampled_from(list(adults)))) if len(adults) else 0
         top = draw(st.sampled_from([2000.0, 3500.0, 5000.0, 7000.0]))
         zero_other = draw(st.sampled_from([True, True, True, False]))
-        wealth = draw(st.sampled_from([0.0, 0.0, 2000.0, 20000.0, 200000.0]))
-        rent = draw(st.sampled_from([0.0, 350.0, 600.0, 950.0]))
+        wealth = draw(st.one_of(st.sampled_from([0.0, 0.0, 2000.0, 20000.0, 200000.0]), st.floats(0.0, 300000.0).map(lambda v: round(v, 2))))
+        rent = draw(st.one_of(st.sampled_from([0.0, 350.0, 600.0, 950.0]), st.floats(0.0, 2500.0).map(lambda v: round(v, 2))))
         others = [int(i) for i in adults if int(i) != who]
         if others and draw(st.booleans()):
             # a second earner with a fixed wage (e.g. the other needs unit of the household)
